@@ -176,6 +176,8 @@ fn import_and_compare(
         }
     }
     let mut posted: BTreeSet<String> = BTreeSet::new();
+    let mut staled: BTreeSet<usize> = BTreeSet::new();
+    let mut stale_first = false;
     let mut junk_done = 0;
     for (pos, (i, _dup)) in plan.iter().enumerate() {
         if junk_at.contains(&pos) {
@@ -199,6 +201,18 @@ fn import_and_compare(
                     }
                 }
             }
+        }
+        // now and then the target first receives an older version of the frame (same id, other
+        // meta), as when a transfer is repeated after the source was corrected: what counts is
+        // the frame imported last
+        if staled.insert(*i) && case.order.get(*i).cloned().unwrap_or(1) % 4 == 0 && w.topic != "xs.context" {
+            let mut old = spec_of(w);
+            old.meta = Some(MetaVal::O(vec![("stale".into(), MetaVal::I(pos as i64))]));
+            stale_first = true;
+            tgt.do_import(old).map_err(|mut f| {
+                f.msg = format!("import of an older version of frame {} ({:?}): {}", w.id, w.topic, f.msg);
+                f
+            })?;
         }
         tgt.do_import(spec_of(w)).map_err(|mut f| {
             f.msg = format!("import #{pos} of frame {} ({:?}): {}", w.id, w.topic, f.msg);
@@ -332,6 +346,7 @@ fn import_and_compare(
     for (on, name) in [
         (case.http, "import-via-http"),
         (case.http && case.client, "import-via-xs-client-library"),
+        (stale_first, "older-version-imported-first"),
         (case.reopen_target, "target-reopened"),
         (!in_id_order, "import-order-not-id-order"),
         (!case.dups.is_empty() && !frames.is_empty(), "duplicate-imports"),
